@@ -192,7 +192,12 @@ func (tw *tworld) drainTun() (frames int, payloads [][]byte) {
 		select {
 		case f := <-tw.r.TunDevice().SendFrame:
 			frames++
-			payloads = append(payloads, append([]byte(nil), f.MessageData()...))
+			// what the tun writer would put on the interface, not only what the policy looked at.
+			if tb, err := kit.TunBytes(f); err == nil {
+				payloads = append(payloads, append([]byte(nil), tb...))
+			} else {
+				payloads = append(payloads, nil)
+			}
 			f.ReturnToPool()
 		default:
 			return
@@ -218,7 +223,7 @@ type inbound struct {
 	dport    uint16
 	innerSrc int // pool index
 	innerDst int // pool index (iR = self) or -1 = API/internal address
-	validity int // 0 sealed by sender, 1 sealed with another router's session, 2 unsealed garbage
+	validity int // 0 sealed by sender, 1 sealed with another router's session, 2 unsealed garbage, 3/4 sealed by sender and label-switched (non-empty switch block: fresh / with return labels of earlier hops)
 }
 
 // policyInbound is the memo-free policy verdict for a packet that passed the
@@ -248,7 +253,7 @@ func flowKey(remote netip.Addr, proto uint8, localPort, remotePort uint16) strin
 // refInbound is the reference verdict including the by-design verdict memo:
 // the first packet of a flow (5-tuple, either direction) decides for the flow.
 func (tw *tworld) refInbound(p inbound, sport uint16) bool {
-	if p.validity != 0 || p.innerSrc != p.sender || p.innerDst != iR {
+	if (p.validity != 0 && p.validity < 3) || p.innerSrc != p.sender || p.innerDst != iR {
 		return false
 	}
 	k := flowKey(pool[p.sender].IP, p.proto, p.dport, sport)
@@ -273,12 +278,29 @@ func (tw *tworld) sendInbound(p inbound, sport uint16) (delivered bool, panicked
 		innerDst = pool[p.innerDst].IP
 	}
 	pk := packet(pool[p.innerSrc].IP, innerDst, p.proto, sport, p.dport, 8)
-	f, err := s.FrameBuilder().NewFrameV1(s.Identity().IP, dst, frame.NetworkTraffic, nil, pk, nil)
+	// label-switched arrival: the switch block lies inside the authenticated part of a
+	// frame and R's switch rewrites it on arrival, so the sender seals over the block
+	// as it will look after R's rotation (it knows R's label of their link) and puts
+	// the not-yet-rotated block on the wire.
+	var swb, swbWire []byte
+	switch p.validity {
+	case 3:
+		swbWire = []byte{0, 0, 0}
+	case 4:
+		swbWire = []byte{0, 9, 7, 0, 0, 0, 0}
+	}
+	if swbWire != nil {
+		swb = append([]byte(nil), swbWire...)
+		if _, err := m.NextRotateSwitchBlock(swb, tw.r.Peering().GetLink(s.Identity().IP).SwitchLabel()); err != nil {
+			panic(err)
+		}
+	}
+	f, err := s.FrameBuilder().NewFrameV1(s.Identity().IP, dst, frame.NetworkTraffic, swb, pk, nil)
 	if err != nil {
 		panic(err)
 	}
 	switch p.validity {
-	case 0:
+	case 0, 3, 4:
 		if err := f.Seal(s.State().GetSession(dst)); err != nil {
 			panic(err)
 		}
@@ -297,6 +319,9 @@ func (tw *tworld) sendInbound(p inbound, sport uint16) (delivered bool, panicked
 	raw, _ := f.FrameDataWithMargins(0, 0)
 	raw = append([]byte(nil), raw...)
 	f.ReturnToPool()
+	if swbWire != nil {
+		copy(raw[49:49+len(swbWire)], swbWire)
+	}
 	np := len(tw.w.Panics)
 	tw.w.Inject(s, tw.r, raw)
 	n, pls := tw.drainTun()
@@ -372,7 +397,7 @@ func (tw *tworld) sendOutbound(o outbound, sport uint16) (emitted int, panicked 
 func TestC06(t *testing.T) {
 	env := kit.GetEnv()
 	rep := kit.NewReport("C06", env)
-	rep.Rule = "configurations: {tcp,udp,http,https,icmp6,ping6} x {explicit port 8080, default port} x {public, friends, for=[IP], for=[friend name], friends+for} x friends in {none,{F1},{F1,F2}} x isolate {off,on} (thorough: all ordered pairs of services over {public, friends, for=[IP], friends+for} incl. colliding keys), each through the real Store parser; per accepted configuration on one real router with four real keyed neighbours: inbound packets = sender {friend, friend2, listed, stranger} x protocol {0,1,6,17,58,255} x dst port {0,80,443,8080,81} x inner src {sender, other} x inner dst {self, other, API address} x frame {sealed by sender, sealed by another router, garbage}; outbound = src {own, foreign} x dst {friend, stranger, listed, multicast, non-Mycoria, unrouted Mycoria} x protocol {6,17,58} ; plus multi-step sequences over mirrored 5-tuples (verdict cache), including expiry of the cached verdict through the real cleaner after 11 minutes of virtual time, and refused flows (inbound without service, outbound against isolation) after an authentic unreachable notice naming the peer + pauses + cleaner runs; each packet uses a fresh source port so verdicts are independent unless a sequence says otherwise; non-trivial = packets whose reference verdict is 'deliver' or that deviate in exactly one condition from a deliverable packet; distinct = distinct (configuration, packet)"
+	rep.Rule = "configurations: {tcp,udp,http,https,icmp6,ping6} x {explicit port 8080, default port} x {public, friends, for=[IP], for=[friend name], friends+for} x friends in {none,{F1},{F1,F2}} x isolate {off,on} (thorough: all ordered pairs of services over {public, friends, for=[IP], friends+for} incl. colliding keys), each through the real Store parser; per accepted configuration on one real router with four real keyed neighbours: inbound packets = sender {friend, friend2, listed, stranger} x protocol {0,1,6,17,58,255} x dst port {0,80,443,8080,81} x inner src {sender, other} x inner dst {self, other, API address} x frame {sealed by sender, sealed by another router, garbage, sealed by sender and label-switched with a switch block that R's switch rotates (2 shapes)}, judged on the bytes the tun writer puts on the interface; outbound = src {own, foreign} x dst {friend, stranger, listed, multicast, non-Mycoria, unrouted Mycoria} x protocol {6,17,58} ; plus multi-step sequences over mirrored 5-tuples (verdict cache), including expiry of the cached verdict through the real cleaner after 11 minutes of virtual time, and refused flows (inbound without service, outbound against isolation) after each of six authentic error notices (unreachable naming the peer from a third router; generic, unreachable, no-encryption-keys followed by fresh key setup, access-denied, rejected from the peer itself) + pauses + cleaner runs; each packet uses a fresh source port so verdicts are independent unless a sequence says otherwise; non-trivial = packets whose reference verdict is 'deliver' or that deviate in exactly one condition from a deliverable packet; distinct = distinct (configuration, packet)"
 	rep.Assumptions = []string{
 		"the verdict cache is by design: a packet mirroring the 5-tuple of a previously allowed flow in the other direction shares that flow's verdict; single-packet cases use fresh tuples, the cache is exercised in dedicated two-step sequences and judged with the same memo in the reference",
 		"'enters the mesh' = a frame emitted by R on any virtual link while the local packet is handled (traffic frame or hello ping)",
@@ -415,7 +440,7 @@ func TestC06(t *testing.T) {
 								continue
 							}
 							for _, innerDst := range []int{iR, iL, -1} {
-								for validity := 0; validity < 3; validity++ {
+								for validity := 0; validity < 5; validity++ {
 									// one-deviation restriction keeps the grid meaningful: at most one
 									// of (inner src, inner dst, validity) deviates.
 									dev := 0
@@ -440,7 +465,7 @@ func TestC06(t *testing.T) {
 									if tw.policyInbound(base) {
 										nontrivial++
 									}
-									desc := fmt.Sprintf("inbound sender=%s proto=%d dport=%d innerSrc=%s innerDst=%s frame=%s", who(sender), proto, dport, who(innerSrc), who(innerDst), []string{"sealed-by-sender", "sealed-by-other", "garbage"}[validity])
+									desc := fmt.Sprintf("inbound sender=%s proto=%d dport=%d innerSrc=%s innerDst=%s frame=%s", who(sender), proto, dport, who(innerSrc), who(innerDst), []string{"sealed-by-sender", "sealed-by-other", "garbage", "sealed-by-sender,label-switched", "sealed-by-sender,label-switched-over-earlier-hops"}[validity])
 									switch {
 									case got && !want:
 										rep.Violate(fmt.Sprintf("inbound-leak/%s/%s", schemeOf(c), leakClass(p, tw)), fmt.Sprintf("packet handed to the local interface although the policy forbids it: %s; %s", desc, c), map[string]any{"config": c.String(), "packet": desc})
@@ -556,10 +581,12 @@ func TestC06(t *testing.T) {
 							rep.Violate("sequence/verdict-changed-after-pause", fmt.Sprintf("flow judged %v, then %v and %v after a pause of %v (reference %v throughout): peer=%s proto=%d; %s", g6, g6b, g6c, pause, w6, who(peer), proto, c), c.String())
 						}
 					}
-					// (g) a refused flow stays refused after an authentic "unreachable" error
-					// notice that names the peer (such notices rewrite the status of every
-					// flow with that peer) followed by pauses and runs of the cleaner.
-					{
+					// (g) a refused flow stays refused after an authentic error notice of every
+					// kind - "unreachable" naming the peer from a third router (such notices rewrite
+					// the status of every flow with that peer), and generic / unreachable / no
+					// encryption keys (keys are then set up again) / access denied / rejected from
+					// the peer itself - followed by pauses and runs of the cleaner.
+					for _, notice := range []string{"unreachable-from-third-router", "generic-from-peer", "unreachable-self-from-peer", "no-encryption-keys-from-peer", "access-denied-from-peer", "rejected-from-peer"} {
 						sport += 2
 						in7 := inbound{peer, proto, 81, peer, iR, 0}
 						w7 := tw.refInbound(in7, sport)
@@ -567,16 +594,41 @@ func TestC06(t *testing.T) {
 						o7 := outbound{iR, peer, proto, 9100}
 						may7 := tw.refOutboundMay(o7, sport+1)
 						n7, _ := tw.sendOutbound(o7, sport+1)
-						reporter := tw.nb[iL]
-						if peer == iL {
-							reporter = tw.nb[iF2]
+						reporter := tw.nb[peer]
+						var code uint8
+						var body []byte
+						switch notice {
+						case "unreachable-from-third-router":
+							reporter = tw.nb[iL]
+							if peer == iL {
+								reporter = tw.nb[iF2]
+							}
+							code, body = 1, kit.MustCBOR(map[string]any{"u": pool[peer].IP})
+						case "generic-from-peer":
+							code, body = 0, kit.MustCBOR("something went wrong")
+						case "unreachable-self-from-peer":
+							code, body = 1, kit.MustCBOR(map[string]any{"u": pool[peer].IP})
+						case "no-encryption-keys-from-peer":
+							code, body = 2, nil
+						case "access-denied-from-peer":
+							code, body = 3, kit.MustCBOR(map[string]any{"d": tw.r.Identity().IP, "t": proto, "p": uint16(81)})
+						case "rejected-from-peer":
+							code, body = 4, kit.MustCBOR(map[string]any{"d": pool[peer].IP, "t": proto, "p": uint16(9100)})
 						}
-						ep, err := kit.BuildPing(reporter, kit.PingSpec{Dst: tw.r.Identity().IP, MsgType: frame.RouterPing, PingType: "error", Code: 1, Body: kit.MustCBOR(map[string]any{"u": pool[peer].IP})})
+						ep, err := kit.BuildPing(reporter, kit.PingSpec{Dst: tw.r.Identity().IP, MsgType: frame.RouterPing, PingType: "error", Code: code, Body: body})
 						if err != nil {
 							panic(err)
 						}
 						tw.w.Inject(reporter, tw.r, ep)
 						tw.w.InFlight = nil
+						if code == 2 {
+							// both ends set up fresh keys, as the next packet would trigger.
+							_ = tw.nb[peer].State().SetEncryptionSession(tw.r.Identity().IP, nil)
+							_ = tw.r.State().SetEncryptionSession(pool[peer].IP, nil)
+							if err := kit.KeySessions(tw.nb[peer], tw.r); err != nil {
+								panic(err)
+							}
+						}
 						time.Sleep(11 * time.Second)
 						_ = tw.r.Router().VerifClean()
 						g7b, _, _ := tw.sendInbound(in7, sport)
@@ -588,10 +640,10 @@ func TestC06(t *testing.T) {
 						evals++
 						nontrivial++
 						if !w7 && (g7 || g7b || g7c) {
-							rep.Violate("sequence/refused-inbound-admitted-after-error-notice", fmt.Sprintf("inbound flow without admitting service: delivered=%v, then %v and %v after an unreachable notice naming the peer, pauses and the cleaner: peer=%s proto=%d; %s", g7, g7b, g7c, who(peer), proto, c), c.String())
+							rep.Violate("sequence/refused-inbound-admitted-after-error-notice", fmt.Sprintf("inbound flow without admitting service: delivered=%v, then %v and %v after an error notice (%s), pauses and the cleaner: peer=%s proto=%d; %s", g7, g7b, g7c, notice, who(peer), proto, c), c.String())
 						}
 						if !may7 && (n7 > 0 || n7b > 0 || n7c > 0) {
-							rep.Violate("sequence/prohibited-outbound-emitted-after-error-notice", fmt.Sprintf("outbound flow the policy prohibits: emitted=%d, then %d and %d after an unreachable notice naming the peer, pauses and the cleaner: peer=%s proto=%d; %s", n7, n7b, n7c, who(peer), proto, c), c.String())
+							rep.Violate("sequence/prohibited-outbound-emitted-after-error-notice", fmt.Sprintf("outbound flow the policy prohibits: emitted=%d, then %d and %d after an error notice (%s), pauses and the cleaner: peer=%s proto=%d; %s", n7, n7b, n7c, notice, who(peer), proto, c), c.String())
 						}
 					}
 					// (e) verdict expiry: after the connection-state cleaner dropped an old flow
@@ -721,7 +773,7 @@ func who(i int) string {
 
 func leakClass(p inbound, tw *tworld) string {
 	switch {
-	case p.validity != 0:
+	case p.validity != 0 && p.validity < 3:
 		return "unauthenticated-frame"
 	case p.innerSrc != p.sender:
 		return "spoofed-inner-source"
